@@ -263,7 +263,11 @@ def e2e_case(draw):
     for stmt in stmts:
         for code in stmt:
             k = draw(st.sampled_from([0, 0, 1, 1, 1, 2, 3]))
-            ds = [draw(directive(special_bias=special and draw(st.booleans()), theme=theme)) for _ in range(k)]
+            # files without a parse tree: mostly inline directives (block directives there run into F-C20-a, which
+            # would otherwise be hit by a quarter of all generated files)
+            inl = flavour in ("notree", "jinja-fatal") and draw(st.integers(0, 3)) != 0
+            ds = [draw(directive(special_bias=special and draw(st.booleans()), theme=theme, inline_only=inl))
+                  for _ in range(k)]
             seen_inline = False
             keep = []
             for d in ds:
@@ -400,7 +404,7 @@ class C20(Check):
         return 64 if tier == "quick" else 2500
 
     def budget_s(self, tier):
-        return 200.0 if tier == "quick" else 1700.0
+        return 300.0 if tier == "quick" else 1700.0
 
     # ---- dispatch
     def run_case(self, case):
